@@ -419,7 +419,22 @@ def make_machine(ctx, tmpdir):
 
 
 def rt_strategy(tier, unit):
-    return st.fixed_dictionaries({"k": st.just("rt"), "entries": st.lists(st.tuples(names, values), max_size=12, unique_by=lambda t: t[0]).map(lambda l: [list(t) for t in l])})
+    # besides the 0-12 drawn entries: "bulk" further entries built deterministically from their index (parameter files with
+    # thousands of lines), and one string value / one name that is several thousand characters long (a path, a list of
+    # image names, ... stored as one space-free word)
+    return st.fixed_dictionaries({"k": st.just("rt"), "entries": st.lists(st.tuples(names, values), max_size=12, unique_by=lambda t: t[0]).map(lambda l: [list(t) for t in l]),
+                                  "bulk": st.sampled_from([0] * 60 + [300, 1024, 1025, 2500]),
+                                  "longval": st.sampled_from([None] * 8 + [1000, 4090, 4200, 9000, 70000]),
+                                  "longname": st.sampled_from([None] * 12 + [300, 4200, 9000])})
+
+
+def _bulk_entries(n):
+    out = []
+    for i in range(n):
+        r = i % 4
+        v = i - n // 2 if r == 0 else ((i * 0.37 - 11.0) / 7.0 if r == 1 else ("w%dx" % i if r == 2 else "%d.5e-3" % i))
+        out.append(("q%05d" % i if i % 7 else "q-%05d" % i, v))
+    return out
 
 
 def check(case, ctx):
@@ -437,6 +452,15 @@ def check(case, ctx):
         else:
             ents = [(k, real_value(v)) for k, v in case["entries"]]
             ents = [(k, v) for k, v in ents if _saveable(v)]
+            if case.get("bulk"):
+                ents = ents + _bulk_entries(case["bulk"])
+                ctx.event("bulk-entries", case["bulk"])
+            if case.get("longval"):
+                ents.append(("zlongvalue", "/data/" + "abcdefghij" * (case["longval"] // 10) + ".edf"))
+                ctx.event("long-value")
+            if case.get("longname"):
+                ents.append(("n" + "abcdefghi_" * (case["longname"] // 10), 42))
+                ctx.event("long-name")
             for k, v in ents:
                 sim.real.set(k, v)
                 sim.model[k] = v
